@@ -208,7 +208,7 @@ Reopen ==
   /\ Finish(A("Reopen", 0, 0, 0, "ok"))
 
 ----------------------------------------------------------------------------
-\*                      ChainService.Stop  neutrino.go:1730-1765
+\*                      ChainService.Stop  neutrino.go:1730-1772
 ----------------------------------------------------------------------------
 Order == IF FixSD1
          THEN <<"connmgr", "bcast", "wm", "utxo", "sub", "bm", "addr", "bw", "close", "done">>
@@ -224,7 +224,7 @@ Enter(s) ==
     [] s = "bm"    -> [sp |-> "bm_wait",    c |-> {"BM"}]     \* blockmanager.go:385 (+ ticker :368)
     [] s = "addr"  -> [sp |-> "addr",       c |-> {}]
     [] s = "bw"    -> [sp |-> "bw_wait",    c |-> {"BW"}]     \* chanutils/batch_writer.go:65
-    [] s = "close" -> [sp |-> "wg_wait",    c |-> {"S"}]      \* neutrino.go:1762
+    [] s = "close" -> [sp |-> "wg_wait",    c |-> {"S"}]      \* neutrino.go:1769
     [] s = "done"  -> [sp |-> "done",       c |-> {}]
 
 Goto(s) ==
@@ -268,7 +268,7 @@ StopStep ==
   /\ UNCHANGED <<pool, bat, err, tries, w, mtx, bc, acts, cs, misc>>
   /\ Finish(I("StopStep"))
 
-\* s.wg.Wait neutrino.go:1763 and return
+\* s.wg.Wait neutrino.go:1770 and return
 StopRet ==
   /\ g.sp = "wg_wait"
   /\ g.ph = "exited" /\ g.dial # "dialing"
@@ -618,8 +618,8 @@ SubhQuit ==
 ----------------------------------------------------------------------------
 BmFrame == UNCHANGED <<pool, q, tries, w, mtx, ux, bc, acts, cs, misc>>
 
-\* blockHandler :2070 a headers message connects a block: newHeadersSignal
-\* .Broadcast :2824, onBlockConnected :2917 blockNtfnChan <- | <-b.quit
+\* blockHandler :2297 a headers message connects a block: newHeadersSignal
+\* .Broadcast :3059, onBlockConnected :3152 blockNtfnChan <- | <-b.quit
 BlkhHeaders ==
   /\ g.blkh = "sel" /\ SyncH /\ ~Closed("S")
   /\ g' = [g EXCEPT !.blkh = "ntfn", !.cfh = IF g.cfh = "cond" THEN "woken" ELSE g.cfh]
@@ -636,7 +636,7 @@ BlkhNtfn ==
   /\ UNCHANGED <<bat, err>> /\ BmFrame
   /\ Finish(I("BlkhNtfn"))
 
-\* :2089
+\* blockHandler's <-b.quit arm
 BlkhQuit ==
   /\ g.blkh = "sel" /\ Closed("BM")
   /\ g' = G("blkh", "exited")
@@ -660,9 +660,9 @@ Tick ==
   /\ UNCHANGED <<bat, err, sb>> /\ BmFrame
   /\ Finish(I("Tick"))
 
-\* cond.Wait returned :542 :702, quit check, then the work the handler does
-\* next: nothing (condition still false), a queryAllPeers round (getCheckpts
-\* :615, getCFHeadersForAllPeers :781), or the checkpointed batch :1119
+\* cond.Wait returned :549 :760, quit check, then the work the handler does
+\* next: nothing (condition still false), a queryAllPeers round (getCheckpts,
+\* getCFHeadersForAllPeers), or the checkpointed batch :1213
 CfhWoken(next) ==
   /\ g.cfh = "woken"
   /\ IF Closed("BM")
@@ -676,8 +676,8 @@ CfhWoken(next) ==
   /\ Finish(I("CfhWoken"))
 
 \* queryAllPeers query.go:277 returned (peers answered, QueryTimeout, s.quit -
-\* NOT b.quit); then: give up and sleep retryTimeout :621 :654 :729, fetch a
-\* block to find the liar (detectBadPeers :1679), or go on to the quit check
+\* NOT b.quit); then: give up and sleep retryTimeout :666 :699 :787, fetch a
+\* block to find the liar (detectBadPeers :1914), or go on to the quit check
 CfhQallEnd(next) ==
   /\ g.cfh = "qall"
   /\ \/ next = "retry" /\ UNCHANGED bat
@@ -695,7 +695,7 @@ CfhRetryEnd ==
   /\ UNCHANGED <<bat, err, sb>> /\ BmFrame
   /\ Finish(I("CfhRetryEnd"))
 
-\* getCheckpointedCFHeaders :1128 select { headerChan | errChan | b.quit }
+\* getCheckpointedCFHeaders :1222 select { headerChan | errChan | b.quit }
 CfhCpqEnd ==
   /\ g.cfh = "cpq"
   /\ \/ /\ err["ch"] # "none"
@@ -716,7 +716,7 @@ CfhGetblkEnd ==
   /\ UNCHANGED <<bat, sb>> /\ BmFrame
   /\ Finish(I("CfhGetblkEnd"))
 
-\* the non-blocking quit checks :589 :737
+\* the non-blocking quit checks in the cfHandler loops
 CfhCheck ==
   /\ g.cfh = "check"
   /\ g' = G("cfh", IF Closed("BM") THEN "exited" ELSE "cond")
